@@ -1,6 +1,7 @@
 import Driver.Bitint
 import Driver.Instant
 import Driver.Strpf
+import Driver.Scale
 open Driver
 
 def step (line : String) : String :=
@@ -10,6 +11,7 @@ def step (line : String) : String :=
     if op ∈ ["bui31", "bui63", "bi31", "bi63", "bi383", "bi447"] then runBitint op args
     else if op.startsWith "i." then runInstant op args
     else if op.startsWith "s." then runStrpf op args
+    else if op.startsWith "c." then runScale op args
     else "bad-op"
 
 partial def loop (h : IO.FS.Stream) (out : IO.FS.Stream) : IO Unit := do
